@@ -23,7 +23,7 @@ import (
 
 type csEvent struct {
 	K    string `json:"k"` // pushop pushpr find rm evict
-	A, B int64  `json:"a,omitempty"`
+	A    int64  `json:"a,omitempty"`
 	Bv   int64  `json:"b,omitempty"`
 }
 
